@@ -5,7 +5,7 @@
    every state, every fuel, every context. *)
 From Coq Require Import List NArith Bool.
 From Storage Require Import Base.Bytes Store.Model Store.SystemProofs Store.SystemStrip Store.SystemMixed
-  Store.SystemChild Store.SystemRestore.
+  Store.SystemChild Store.SystemRestore Store.XOps Store.SystemDeleteWhere.
 Import ListNotations.
 
 (* (1) Create with the system flag, Update and DeleteById of an entity whose STORED flag is set - entered
@@ -256,3 +256,48 @@ Theorem child_system_rules_hold_after_restore : forall sch c fuel st0 steps t pr
              (rs, false, hist_final sch fuel st0 steps, []).
 Proof. exact restore_then_refused_child_lemma. Qed.
 Print Assumptions child_system_rules_hold_after_restore.
+
+(* (7) DeleteWhere (Store/XOps.v XDeleteWhere: QueryIds of the filter through the store, DeleteById per id in the order of the
+   result, first error returned) from an ordinary context: when the collected ids contain an entity of the family whose STORED
+   flag is set - at ANY position of the id order, whatever the filter, through the root store or any child store, whatever is
+   deleted before it - the operation fails, in every state ... *)
+Theorem delete_where_system_refused : forall sch s fuel oc stev s0 flt i,
+  wf_system_b sch s = true -> oc_sys oc = false -> root_of sch s0 = s ->
+  In i (dw_ids sch (fst stev) s0 flt) -> get_field sch (fst stev) s i isSystemF = FBool true ->
+  exists k, run_xop sch fuel oc stev (XDeleteWhere s0 flt) = Err k.
+Proof. intros sch s fuel oc stev s0 flt i Hwf. exact (delete_where_refused_lemma sch s Hwf fuel oc stev s0 flt i). Qed.
+Print Assumptions delete_where_system_refused.
+
+(* ... and the transaction that contains it (at any position, after any successful prefix of plain / derived operations)
+   leaves the database exactly as it was: entities, fields, child data AND index entries (the state holds them all) *)
+Theorem delete_where_requires_system_ctx : forall sch s fuel st t pre s0 flt post stev' i,
+  wf_system_b sch s = true -> xtx_sys t = false ->
+  xtx_ops t = pre ++ XDeleteWhere s0 flt :: post ->
+  snd (run_xops sch fuel (mkOctx (xtx_sys t) (xtx_vetoes t)) (st, []) pre) = Ok stev' ->
+  root_of sch s0 = s ->
+  In i (dw_ids sch (fst stev') s0 flt) -> get_field sch (fst stev') s i isSystemF = FBool true ->
+  (exists k, run_xop sch fuel (mkOctx (xtx_sys t) (xtx_vetoes t)) stev' (XDeleteWhere s0 flt) = Err k) /\
+  (exists rs, run_xtx sch fuel st t = (rs, false, st, [])).
+Proof.
+  intros sch s fuel st t pre s0 flt post stev' i Hwf.
+  exact (delete_where_requires_system_ctx_lemma sch s Hwf fuel st t pre s0 flt post stev' i).
+Qed.
+Print Assumptions delete_where_requires_system_ctx.
+
+(* the reading the oracle of checks/c16.py uses: a DeleteWhere of an ordinary context that returned nil matched no system
+   entity of the family *)
+Theorem delete_where_ok_matched_no_system_entity : forall sch s fuel oc stev s0 flt stev',
+  wf_system_b sch s = true -> oc_sys oc = false -> root_of sch s0 = s ->
+  run_xop sch fuel oc stev (XDeleteWhere s0 flt) = Ok stev' ->
+  forall i, In i (dw_ids sch (fst stev) s0 flt) -> get_field sch (fst stev) s i isSystemF <> FBool true.
+Proof. intros sch s fuel oc stev s0 flt stev' Hwf. exact (delete_where_ok_no_system_entity_lemma sch s Hwf fuel oc stev s0 flt stev'). Qed.
+Print Assumptions delete_where_ok_matched_no_system_entity.
+
+(* the constraint on a CHILD store c only: the collected ids contain a flagged entity c can load *)
+Theorem child_delete_where_system_refused : forall sch c fuel oc stev s0 flt i,
+  wf_system_child_b sch c = true -> oc_sys oc = false -> root_of sch s0 = root_of sch c ->
+  In i (dw_ids sch (fst stev) s0 flt) ->
+  get_field sch (fst stev) c i isSystemF = FBool true -> loadable sch (fst stev) c i = true ->
+  exists k, run_xop sch fuel oc stev (XDeleteWhere s0 flt) = Err k.
+Proof. exact child_delete_where_refused_lemma. Qed.
+Print Assumptions child_delete_where_system_refused.
